@@ -8,10 +8,12 @@ The public function is traced *as it is* (nothing of /repo is edited or re-imple
   k_ec_smallest_angle vector axis            = pydrex.diagnostics.smallest_angle(vector, axis)   (numba kernel)
   k_ec_sccs_col_{0,1,2} eigv_dij eigv_vij    = the value iteration i of the eigenvector-pairing loop stores into
                                                column i of the work array `unpermuted_SCCS`  (a SEGMENT, see below)
+  k_ec_row eigh matrix                       = what one pass of `for m, matrix in enumerate(voigt_matrices)` writes into
+                                               row m of the nine output arrays  (a SEGMENT, see below)
   k_elasticity_components_n1 eigh M0         = elasticity_components(<series of one>)
   k_elasticity_components_n2 eigh M0 M1      = elasticity_components(<series of two>)
 
-  result of the last two: (flags, rows) -- row m = the 11 numbers [bulk_modulus, shear_modulus, percent_anisotropy,
+  result of the last three: (flags, rows) -- row m = the 11 numbers [bulk_modulus, shear_modulus, percent_anisotropy,
   percent_hexagonal, percent_tetragonal, percent_orthorhombic, percent_monoclinic, percent_triclinic,
   hexagonal_axis(3)] of matrix m, flags[m] = 1; a matrix for which no candidate frame beats the initial
   distance leaves its percentages / axis as np.empty allocated them: flags[m] = 0 and the row is all zeros.
@@ -41,7 +43,14 @@ the AST of the current source, fail closed (`analyse`):
     segment) or definitely assigned earlier in the same iteration;
   * no name assigned in the loop is read outside it, except under a `for` / comprehension that re-binds it.
 Hence iteration i is a function of (free variables, i) alone and communicates with the rest through column i of W
-only.  As a dynamic cross-check every definition is traced twice, with the unrecorded decisions answered True and
+only.  The loop over the series is summarised in the same way (k_ec_row; otherwise a series of two would need 8 copies
+of the second matrix' tree): it must be `for <m>, <matrix> in enumerate(<the parameter>)`, the last statement before
+`return <dict>`; the parameter is used by len() and that loop only; inside the loop the dictionary may only appear as
+the base of the stores `<dict>[<str>][<m>] = ...` / `<dict>[<str>][<m>, ...] = ...`, which together with the column
+store are the only array stores; the loop has NO free local variable besides the dictionary; the same definite-
+assignment / deadness rules.  At the end of pass m the row is read from the running frame (all 11 entries, or the 8
+percentages / axis entries still as np.empty allocated them -> flag 0), rows of other matrices must be untouched.
+As a dynamic cross-check every definition is traced twice, with the unrecorded decisions answered True and
 answered False, and the two results must print identically.
 
 NumPy semantics (closed proxies; nothing in symtrace.py is changed): array elements and np / scipy.linalg results
